@@ -1,3 +1,4 @@
+import F3.Proofs.ValidatorGen2
 import F3.Proofs.ValidatorTwoStage
 set_option linter.unusedSimpArgs false
 /-!
@@ -233,4 +234,37 @@ example : placeholdersOK (strip m0) := by
       simp [strip, m0] at hj; exact hj.symm
     subst this; decide
 
+end F3.Props.C13
+
+/-! # Regenerated, second set (appended): ties to `tools/go2lean/targets.d/*2.json` -/
+namespace F3.Props.C13
+section Regenerated2
+open F3.Msg F3.Validator
+/-! ## Regenerated (2): `voteForBottom` and the value rules of `FullyValidateMessage`
+
+Proved in `F3/Proofs/ValidatorGen2.lean` against `F3/Gen/Validate2.lean` (`targets.d/Validate2.json`). -/
+
+/-- `voteForBottom` in full and in partial mode = the source's expression -/
+theorem vote_for_bottom_is_regenerated (vk : Option VKey) (m : Msg) (kz : Bool) :
+    voteForBottom vk m =
+      F3.Gen.Validate2.voteForBottom (match vk with | some k => k.isZero | none => kz) vk.isSome
+        m.vote.value.isEmpty :=
+  F3.Gen2Tie.voteForBottom_is_regenerated vk m kz
+
+/-- the abbreviated expectation table of stage two = the source's map literal -/
+theorem full_table_is_regenerated (ph jph : Nat) :
+    fullTable ph jph =
+      (F3.Gen2Tie.lookup2 F3.Gen.Validate2.fullExpectations ph jph).bind
+        (fun cells => match cells with | [k] => some (k == 1) | _ => none) :=
+  F3.Gen2Tie.fullTable_is_regenerated ph jph
+
+/-- the zero-key rules of stage two (statement: `F3.Gen2Tie.fullZeroKey_is_regenerated`) -/
+theorem full_zero_key_is_regenerated : type_of% @F3.Gen2Tie.fullZeroKey_is_regenerated :=
+  @F3.Gen2Tie.fullZeroKey_is_regenerated
+
+example : F3.Gen.Validate2.fullZeroKeyRules true true true false = 1 ∧
+    F3.Gen.Validate2.fullZeroKeyRules false true true true = 2 ∧
+    F3.Gen.Validate2.fullZeroKeyRules false false true false = 0 := by decide
+
+end Regenerated2
 end F3.Props.C13
